@@ -149,17 +149,39 @@ def annotate(dst, ann):
 
 
 def apply_map_shim(dst, files):
-    """Registry units only: std HashMap/HashSet -> association list with the same interface (DESIGN fact 5)."""
+    """Registry units only: std HashMap/HashSet -> association list with the same interface (DESIGN fact 5).
+    Rewrites only `use` declarations: `collections::X` inside `use std::{..}` groups and `use std::collections::X;`."""
     n = 0
     for f in files:
         p = os.path.join(dst, f)
         s = open(p).read()
-        s2 = re.sub(r"(?m)^(\s*)use std::collections::(\{[^}]*\}|\w+(?:::\w+)*);",
-                    lambda m: f"{m.group(1)}#[cfg(not(kani))]\n{m.group(1)}use std::collections::{m.group(2)};\n"
-                              f"{m.group(1)}#[cfg(kani)]\n{m.group(1)}use crate::verif_map::{m.group(2)};", s)
-        if s2 != s:
-            n += 1
+        added = []
+
+        def grp(m):
+            body = m.group(1)
+            items = re.findall(r"collections::(\{[^}]*\}|\w+)", body)
+            if not items:
+                return m.group(0)
+            body2 = re.sub(r"\s*collections::(\{[^}]*\}|\w+)\s*,?", "", body)
+            for it in items:
+                added.append(it)
+            return "use std::{" + body2 + "};"
+        s2 = re.sub(r"use std::\{([^;]*?)\};", grp, s, flags=re.S)
+
+        def single(m):
+            added.append(m.group(1))
+            return ""
+        s2 = re.sub(r"(?m)^use std::collections::(\{[^}]*\}|\w+);\n", single, s2)
+        if added:
+            # place the replacement imports after the first remaining `use` item
+            ins = "".join(f"#[cfg(not(kani))]\nuse std::collections::{it};\n#[cfg(kani)]\nuse crate::verif_map::{it};\n" for it in added)
+            m = re.search(r"(?m)^use [^;]*;\n", s2)
+            pos = m.end() if m else 0
+            s2 = s2[:pos] + ins + s2[pos:]
             open(p, "w").write(s2)
+            n += len(added)
+    if n == 0:
+        raise AnchorError("map shim: no std::collections import found to redirect")
     return n
 
 
